@@ -298,6 +298,16 @@ class EquityFam(ghost.Family):
     def term(self, I, heap, k):
         return eq_term(SymBrokerView(I, self.b, heap), k)
 
+    def deps(self, I, heap):
+        f = heap[self.b.oid]
+        out = []
+        for name in ("_holdings_quantity", "_holdings_margins", "_last_marking_to_market_price"):
+            p = heap[f[name].oid]
+            out += [p["get"], p["dom"]]
+        books = heap[heap[f["exchange"].oid]["_books"].oid]
+        out += [books["cols"]["bid_price"], books["cols"]["ask_price"]]
+        return out
+
 
 def exists_key(I, name, pred):
     """a Bool equivalent to  exists k. pred(k)   (definitional axioms; keeps every query quantifier free)"""
